@@ -68,7 +68,30 @@ type AtStmt struct {
 	Used   int
 }
 
+// UseRef: "uses REGION[: names]" (modular step over a sub-region of the same function: its named preconditions are
+// asserted at its entry, its statements are replaced by havoc of what they may write plus its postconditions) and
+// "establishes FUNC: names" (the named preconditions of an opaque callee are asserted at its calls).
+type UseRef struct {
+	Target string
+	Names  []string // empty = every precondition
+	Line   int
+}
+
+func (u *UseRef) wants(name string) bool {
+	if len(u.Names) == 0 {
+		return true
+	}
+	for _, n := range u.Names {
+		if n == name {
+			return true
+		}
+	}
+	return false
+}
+
 type UnitContract struct {
+	Uses        []*UseRef
+	Establishes []*UseRef
 	AtStmts     []*AtStmt
 	PkgDir      string
 	Func        string
@@ -466,6 +489,23 @@ func (cs *ContractSet) parseFile(path, pkgdir string) error {
 			cur.Trusted = true
 		case strings.HasPrefix(t, "aborts-only "):
 			cur.AbortsOnly = strings.TrimSpace(strings.TrimPrefix(t, "aborts-only "))
+		case strings.HasPrefix(t, "uses "), strings.HasPrefix(t, "establishes "):
+			isUse := strings.HasPrefix(t, "uses ")
+			rest := strings.TrimSpace(strings.TrimPrefix(strings.TrimPrefix(t, "uses "), "establishes "))
+			ur := &UseRef{Line: l.line}
+			if k := strings.Index(rest, ":"); k >= 0 {
+				ur.Names = strings.Fields(rest[k+1:])
+				rest = strings.TrimSpace(rest[:k])
+			}
+			ur.Target = rest
+			if ur.Target == "" {
+				return fail(l, "uses REGION[: names] / establishes FUNC[: names]")
+			}
+			if isUse {
+				cur.Uses = append(cur.Uses, ur)
+			} else {
+				cur.Establishes = append(cur.Establishes, ur)
+			}
 		case strings.HasPrefix(t, "opaque "):
 			cur.Opaque = append(cur.Opaque, strings.Fields(strings.TrimPrefix(t, "opaque "))...)
 		case strings.HasPrefix(t, "ghost var "):
